@@ -103,5 +103,49 @@ pub open spec fn prefix_matches(mb: Metablock, j: int, short: Seq<char>) -> bool
                 assert(links_per_step@ =~= map0.insert(mb.signatures@[j].kid(), mb));
             }
 //@end
+
+// C02: the block is validly signed by `key`, the signature being attributed to key's own id
+pub open spec fn signed_by(mb: Metablock, key: PublicKey) -> bool {
+    counted_ok(mb, seq![&key], key.kid())
+}
+//@extract src/verifylib.rs fn:verify_link_signature_thresholds_step props=C02,C14
+//@contract ret=r
+    ensures
+        r is Ok ==> r->Ok_0@.len() >= step.threshold,     // [C02]
+        r is Ok ==> forall|k: KeyId| #[trigger] r->Ok_0@.contains_key(k) ==>
+            links@.contains_key(k) && r->Ok_0@[k] == links@[k]
+            && step.pub_keys@.contains(k)
+            && pubkeys@.contains_key(k)
+            && signed_by(links@[k], pubkeys@[k]),           // [C02]
+//@before /let mut metablocks = HashMap::new\(\);/
+    proof { fact_keyid_key_model(); fact_keys_of_vec(); }
+//@loop 1 iter=it
+        invariant
+            vstd::std_specs::hash::obeys_key_model::<KeyId>(),
+            forall|v: Vec<&PublicKey>| #[trigger] keys_of::<Vec<&PublicKey>>(v) == v@,
+            forall|i: int| 0 <= i < it.seq().len() ==> links@.contains_key(*(#[trigger] it.seq()[i]).0) && links@[*it.seq()[i].0] == *it.seq()[i].1,
+            forall|k: KeyId| #[trigger] metablocks@.contains_key(k) ==>
+                links@.contains_key(k) && metablocks@[k] == links@[k]
+                && step.pub_keys@.contains(k)
+                && pubkeys@.contains_key(k)
+                && signed_by(links@[k], pubkeys@[k]),
+//@before /let authorized_key = vec!\[authorized_key\];/
+            let ghost ak = *authorized_key;
+//@after /let authorized_key = vec!\[authorized_key\];/
+            assert(authorized_key@ =~= seq![&ak]);
+//@before /metablocks$/
+                proof {
+                    let kk = *signer_key_id;
+                    assert(links@.contains_key(kk) && links@[kk] == *link_metablock);
+                    assert(pubkeys@.contains_key(kk) && pubkeys@[kk] == ak);
+                    let good = choose|good: Set<KeyId>| good.len() >= 1 && forall|id: KeyId| good.contains(id) ==> counted_ok(*link_metablock, seq![&ak], id);
+                    if forall|id: KeyId| !good.contains(id) { assert(good =~= Set::<KeyId>::empty()); assert(false); }
+                    let id = choose|id: KeyId| good.contains(id);
+                    assert(good.contains(id));
+                    assert(counted_ok(*link_metablock, seq![&ak], id));
+                    assert(id == ak.kid());
+                    assert(signed_by(links@[kk], pubkeys@[kk]));
+                }
+//@end
 } // verus!
 fn main() {}
